@@ -120,6 +120,15 @@ def emap {ε α β : Type} (f : α → β) : Except ε α → Except ε β
   | .ok a => .ok (f a)
   | .error e => .error e
 
+/-- Elementwise binary operation on two results of equal shape (numpy would broadcast; the
+operands of every use below are views of same-shape arrays under the same view). -/
+def zipRes {α β γ : Type} (op : α → β → γ) (x : Except ViewErr (NArr α)) (y : Except ViewErr (NArr β)) :
+    Except ViewErr (NArr γ) :=
+  match x, y with
+  | .ok a, .ok b => .ok ⟨b.shape, List.zipWith op a.data b.data⟩
+  | .error e, _ => .error e
+  | _, .error e => .error e
+
 /-- The positive-step fragment of the view domain (the property's stated domain). -/
 def ViewItem.posStep : ViewItem → Bool
   | .int _ => true
@@ -171,7 +180,7 @@ def toCoordsView (sh : List Nat) : View → Option Coords.View
   | .mask m => some (.mask m)
   | .arrays s items =>
     if items.length = sh.length ∧ (sh.zip items).all (fun p => match p.2 with
-        | .arr xs => xs.all (inAxis p.1)
+        | .arr xs => xs.length == prod s && xs.all (inAxis p.1)
         | .int _ => false) then
       some (.arrays s ((sh.zip items).map fun p => match p.2 with
         | .arr xs => xs.map (wrapD p.1)
@@ -200,11 +209,7 @@ def attr (sh : List Nat) : Attr → View → Except ViewErr (NArr Rat)
   | .pixel ax, v => (tabulate sh fun idx => ((idx.getD ax 0 : Nat) : Rat)).index v
   | .stored vals, v => (NArr.mk sh vals).index v
   | .map f a, v => emap (NArr.map f) (attr sh a v)
-  | .zip op a b, v =>
-    match attr sh a v, attr sh b v with
-    | .ok x, .ok y => .ok ⟨y.shape, List.zipWith op x.data y.data⟩
-    | .error e, _ => .error e
-    | _, .error e => .error e
+  | .zip op a b, v => zipRes op (attr sh a v) (attr sh b v)
   | .linked a, v => attr sh a (joinSplit v)
   | .world c ax, v => world c sh ax v
 
@@ -414,21 +419,11 @@ def noneToSlice : View → View
 def elementFull (sh : List Nat) (inds : List Int) : NArr Bool :=
   ⟨sh, (List.range (prod sh)).map fun k => inds.any fun i => wrapD (prod sh) i == k⟩
 
-def bop (op : Bool → Bool → Bool) (x y : Except ViewErr (NArr Bool)) : Except ViewErr (NArr Bool) :=
-  match x, y with
-  | .ok a, .ok b => .ok ⟨a.shape, List.zipWith op a.data b.data⟩
-  | .error e, _ => .error e
-  | _, .error e => .error e
-
 /-- `state.to_mask(data, view)` per selection class, as coded. -/
 def mask (sh : List Nat) : State → View → Except ViewErr (NArr Bool)
   | .base, v => gather sh (fun _ => false) v
   | .pred a p, v => emap (NArr.map p) (attr sh a v)
-  | .pred2 a b p, v =>
-    match attr sh a v, attr sh b v with
-    | .ok x, .ok y => .ok ⟨x.shape, List.zipWith p x.data y.data⟩
-    | .error e, _ => .error e
-    | _, .error e => .error e
+  | .pred2 a b p, v => zipRes p (attr sh a v) (attr sh b v)
   | .table f, v => gather sh f v
   | .roiPix axes roi, v => roiPix sh axes roi v
   | .roiChunked axes roi, v =>
@@ -466,9 +461,9 @@ def mask (sh : List Nat) : State → View → Except ViewErr (NArr Bool)
       | .none => .ok (elementFull sh inds)
       | _ => (elementFull sh inds).index v
     else .error .indexError
-  | .and a b, v => bop (· && ·) (mask sh a v) (mask sh b v)
-  | .or a b, v => bop (· || ·) (mask sh a v) (mask sh b v)
-  | .xor a b, v => bop (fun x y => x != y) (mask sh a v) (mask sh b v)
+  | .and a b, v => zipRes (· && ·) (mask sh a v) (mask sh b v)
+  | .or a b, v => zipRes (· || ·) (mask sh a v) (mask sh b v)
+  | .xor a b, v => zipRes (fun x y => x != y) (mask sh a v) (mask sh b v)
   | .inv a, v => emap (NArr.map (!·)) (mask sh a v)
 
 end Impl
@@ -579,6 +574,87 @@ end Impl
 /-! ## Spec: the result for a view is the full-size result indexed by the view -/
 
 namespace Spec
+
+/-- The value of an attribute at an index tuple of a dataset of shape `sh` (what the attribute *is*,
+independently of any view). -/
+def attrAt (sh : List Nat) : Attr → List Nat → Rat
+  | .pixel ax, idx => ((idx.getD ax 0 : Nat) : Rat)
+  | .stored vals, idx => (NArr.mk sh vals).get idx
+  | .map f a, idx => f (attrAt sh a idx)
+  | .zip op a b, idx => op (attrAt sh a idx) (attrAt sh b idx)
+  | .linked a, idx => attrAt sh a idx
+  | .world c ax, idx => Coords.Spec.worldAt c ax idx
+
+/-- Well-formed attribute descriptions: world axes exist and the coordinate object has the dataset's
+dimension. -/
+def attrWf (sh : List Nat) : Attr → Bool
+  | .pixel _ => true
+  | .stored _ => true
+  | .map _ a => attrWf sh a
+  | .zip _ a b => attrWf sh a && attrWf sh b
+  | .linked a => attrWf sh a
+  | .world c ax => decide (ax < c.n) && decide (sh.length = c.n)
+
+/-- Coordinate `k` of an axis of length `n` is selected by an entry of a `SliceSubsetState`. -/
+def stateEntryHas (n : Nat) : ViewItem → Nat → Bool
+  | .int i, k => k == wrapD n i
+  | .slice a b c, k =>
+    match sliceIndices a b c n with
+    | some (bs, es, ss) => (pyRange bs es ss.toNat).contains (k : Int)
+    | Option.none => false
+
+def sliceHolds : List Nat → List ViewItem → List Nat → Bool
+  | n :: ns, sl :: sls, k :: ks => stateEntryHas n sl k && sliceHolds ns sls ks
+  | _, _, _ => true
+
+/-- Membership of an index tuple in a selection (what the selection *is*). -/
+def holds (sh : List Nat) : State → List Nat → Bool
+  | .base, _ => false
+  | .pred a p, idx => p (attrAt sh a idx)
+  | .pred2 a b p, idx => p (attrAt sh a idx) (attrAt sh b idx)
+  | .table f, idx => f idx
+  | .roiPix axes roi, idx => roi (axes.map fun ax => idx.getD ax 0)
+  | .roiChunked axes roi, idx => roi (axes.map fun ax => idx.getD ax 0)
+  | .loop1d _ f, idx => f idx
+  | .sliceSt sls, idx => sliceHolds sh sls idx
+  | .unrelated, _ => false
+  | .maskSame m, idx => (NArr.mk sh m).get idx
+  | .maskAxes axes msh m, idx =>
+    let vs := axes.map fun ax => idx.getD ax 0
+    (NArr.mk msh m).get vs && (vs.zip sh).all fun p => decide (p.1 < p.2)
+  | .element inds, idx => inds.any fun i => wrapD (prod sh) i == flat sh idx
+  | .and a b, idx => holds sh a idx && holds sh b idx
+  | .or a b, idx => holds sh a idx || holds sh b idx
+  | .xor a b, idx => holds sh a idx != holds sh b idx
+  | .inv a, idx => !holds sh a idx
+
+/-- A positive-step slice entry. -/
+def posSliceEntry : ViewItem → Bool
+  | .int _ => false
+  | .slice _ _ c => match c with | Option.none => true | some s => decide (0 < s)
+
+/-- Well-formed selections on a dataset of shape `sh`. -/
+def stateWf (sh : List Nat) : State → Bool
+  | .pred a _ => attrWf sh a
+  | .pred2 a b _ => attrWf sh a && attrWf sh b
+  | .roiChunked _ _ => !sh.isEmpty
+  | .loop1d _ _ => sh.length == 1
+  | .sliceSt sls => sls.length == sh.length && sls.all posSliceEntry
+  | .maskSame m => m.length == prod sh && !sh.isEmpty
+  | .maskAxes _ _ _ => !sh.isEmpty
+  | .element inds => inds.all (inAxis (prod sh))
+  | .and a b => stateWf sh a && stateWf sh b
+  | .or a b => stateWf sh a && stateWf sh b
+  | .xor a b => stateWf sh a && stateWf sh b
+  | .inv a => stateWf sh a
+  | _ => true
+
+/-- `full[view]` when the full-size result exists. -/
+def viewOfRes {α : Type} [Inhabited α] (full : Except ViewErr (NArr α)) (v : View) :
+    Except ViewErr (NArr α) :=
+  match full with
+  | .ok f => f.index v
+  | .error e => .error e
 
 /-- What C04 demands of `get_data(cid, view)` / `get_mask(state, view)` given the full-size result
 `full` (the result for `view = None`): `out` is `full[view]` — same shape, same values. -/
